@@ -26,6 +26,26 @@ PUSH_HINT = '''
 '''
 
 
+def nested_fn_text(fn, name):
+    """exact source text of the nested `fn name(..) {..}` item inside `fn` (located with the lexer, so any body is accepted)"""
+    from ..rustlex import match_close, _next_sig
+    from ..splice import AnchorLost
+    toks = fn.toks
+    k = fn.open + 1
+    while k < fn.last:
+        t = toks[k]
+        if t.kind == 'ident' and t.text == 'fn':
+            j = _next_sig(toks, k + 1)
+            if toks[j].text == name:
+                b = j
+                while toks[b].text != '{':
+                    b += 1
+                e = match_close(toks, b)
+                return fn.src[t.start:toks[e].end]
+        k += 1
+    raise AnchorLost(f'nested fn {name} not found in {fn.name}')
+
+
 class UnitD(Unit):
     name = 'D'
     props = ('C10',)
@@ -83,8 +103,11 @@ class UnitD(Unit):
         STEM = ("if let Some(last_segment) = namespace.split('/').next_back() { if let Some(slashed) = last_segment.split('-').next_back() { "
                 "take_three_chars_max(slashed) } else { take_three_chars_max(last_segment) } } else { take_three_chars_max(namespace) }")
         ops = [G.opaque(out, STEM, 'String', flex=True)]
-        nested = 'fn take_three_chars_max(namespace: &str) -> String { namespace.chars().filter(|c| c != &\'.\').take(3).collect() }'
+        # the nested helper item is dropped whole, whatever its body says (its value and its panic freedom are NOT verified here:
+        # the bounded C13 harness feeds it adversarial URIs instead)
+        nested = nested_fn_text(fn, 'take_three_chars_max')
         ops.append(G.opaque(out, nested, '()', flex=True, suffix=';'))
+        out.dropped.append('nested fn take_three_chars_max of make_abbreviated_namespace (stem computation: pure, iterator adapters; unverified)')
         splice_fn(out, fn, f, 'doc::make_abbreviated_namespace', probe=probe, opaque=ops, sink='\0',
                   ensures=[('fresh-abbreviation', 'forall|i: int| 0 <= i < existing_namespaces@.len() ==> (#[trigger] existing_namespaces@[i]).abbreviation@ != res@')],
                   origin={'fresh-abbreviation': 'property'},
